@@ -9,6 +9,7 @@ from ..model import refgraph as RG
 from ..model import refiso as RI
 from ..universe import graphs as U
 from . import eqcommon as E
+from . import histories as H
 
 PROP = "C03"
 RULE = ("(i) every fully specified spec of the C01 universes x every same-graph-by-construction variant (renaming, insertion "
@@ -16,10 +17,11 @@ RULE = ("(i) every fully specified spec of the C01 universes x every same-graph-
         "G' in {G}, {G:1}[G']; (ii) complete labelled universes (all labelled MolGraphs n<=4 over {C,H}, all labelled reaction "
         "graphs on 3 C atoms, stereo universes) partitioned into isomorphism classes by the brute-force oracle: one hash per "
         "class; (iii) a fixed list of non-empty graphs of all classes hashed in fresh interpreters under several PYTHONHASHSEED "
-        "values: identical output.  distinct = (spec, variant) pairs + labelled graphs + (graph, seed) pairs")
+        "values: identical output; (iv) every sequence of <=2 (thorough <=3) public mutator calls after 2-4 roots per class on a "
+        "stereo-valid 14-atom skeleton, hash and == evaluated after every call: hash(G) == hash(freshly built twin).  distinct = (spec, variant) pairs + labelled graphs + (graph, seed) pairs")
 ASSUMPTIONS = ["the seed space (2^32) is cut to a list: quick {0,1,2,3,42,4294967295}, thorough 32 seeds + 'random' twice",
                "fully specified parities only", "pairs the library calls equal but the oracle refutes are C02's business"]
-BUDGET = {"quick": 200, "thorough": 1500}
+BUDGET = {"quick": 600, "thorough": 1500}
 MG, SMG, CRG, SCRG = RG.MG, RG.SMG, RG.CRG, RG.SCRG
 
 
@@ -61,11 +63,13 @@ def items(tier, seed):
     seeds = [0, 1, 2, 3, 42, 4294967295] if tier == "quick" else list(range(0, 30)) + [12345, 4294967295, "random", "random"]
     for s in seeds:
         out.append({"part": "process", "hashseed": s, "tier": tier})
-    return out
+    return out + H.items(tier)
 
 
 def run_item(item):
     out = {"evals": 0, "distinct": 0, "outcomes": {}, "viol": [], "samples": []}
+    if item["part"] == "history":
+        return H.run(item, out, PROP)
     if item["part"] == "variants":
         return _variants(item, out)
     if item["part"] == "classes":
